@@ -287,7 +287,7 @@ func (g *c05Gen) nearMiss(types []string, ops []operand.Op) string {
 			s = 16
 		}
 		if s == 16 {
-			ops[i] = pick(g.r, g.vec[16])
+			ops[i] = g.vecReg(16)
 		} else {
 			ops[i] = g.gpReg(s)
 		}
@@ -298,7 +298,7 @@ func (g *c05Gen) nearMiss(types []string, ops []operand.Op) string {
 		if s == sizes[t] {
 			ops[i] = g.gpReg(8)
 		} else {
-			ops[i] = pick(g.r, g.vec[s])
+			ops[i] = g.vecReg(s)
 		}
 		return "reg-size"
 	case strings.HasPrefix(t, "m") || strings.HasPrefix(t, "vm"):
@@ -310,7 +310,7 @@ func (g *c05Gen) nearMiss(types []string, ops []operand.Op) string {
 		case 0:
 			m.Base = nil
 		case 1:
-			m.Base = pick(g.r, g.vec[16])
+			m.Base = g.vecReg(16)
 		default:
 			m.Index = pick(g.r, g.k)
 			m.Scale = 1
@@ -481,7 +481,7 @@ func (g *c05Gen) build(db *formsDB, row *formRow, stream string) *c05Case {
 			ops = append(ops, op)
 		}
 		// gathers/scatters fault (and the assembler refuses) when destination, index and mask coincide
-		if !gather || stream == "malformed" || c05DistinctVec(ops) {
+		if !gather || c05DistinctVec(ops) {
 			break
 		}
 	}
